@@ -18,7 +18,8 @@ import tempfile
 ID = "C07"
 LEVEL = "translation_validation"
 RULE = ("random query programs over a mapped model (Leaf, Holder > SubHolder, Tag, Top): the six comparisons between "
-        "attribute chains and literals, in_/contains with list and string operands, and_/or_ nesting, paths across one "
+        "attribute chains and literals, in_/contains with list, set, tuple, nested-list and string operands (substrings with '_', '%' and mixed case), membership in a JSON-stored collection of builtins, "
+        "set_of and attribute selections, and_/or_ nesting, paths across one "
         "and two relationships, equality joins between relationship attributes of two variables, scalar comparisons "
         "between two variables (same and different classes), subclass-typed variables, an and the; plus constructs the "
         "translator does not handle (not_, exists, calls, indexing) to observe the rejection path; a fresh random world "
@@ -74,8 +75,9 @@ def finish(ctx):
 # ------------------------------------------------------------------ generation
 def gen_world(rng):
     n_leaf = rng.randint(3, 10)
-    leaves = [{"n": rng.randint(0, 4), "s": rng.choice(["ab", "abc", "b", "xa", "", "a b"]), "o": rng.choice([None, 0.0, 1.0, 2.5, -1.0]),
-               "k": rng.randint(0, 2)} for _ in range(n_leaf)]
+    leaves = [{"n": rng.randint(0, 4), "s": rng.choice(["ab", "abc", "b", "xa", "", "a b", "A_b", "a%b", "Ab"]),
+               "o": rng.choice([None, 0.0, 1.0, 2.5, -1.0]), "k": rng.randint(0, 2),
+               "labels": rng.sample(["a", "ab", "b", "c d", "A"], rng.choice([0, 1, 1, 2, 3]))} for _ in range(n_leaf)]
     other_all = rng.random() < 0.5
     holders = [{"sub": rng.random() < 0.35, "leaf": rng.randrange(n_leaf), "other": rng.randrange(n_leaf) if (other_all or rng.random() < 0.5) else None,
                 "many": [rng.randrange(n_leaf) for _ in range(rng.randint(0, 3))], "extra": rng.randint(0, 4), "bonus": rng.randint(0, 3)}
@@ -85,8 +87,8 @@ def gen_world(rng):
     return {"leaves": leaves, "holders": holders, "tags": tags, "tops": tops, "other_all": other_all and all(h["other"] is not None for h in holders)}
 
 
-SCALARS = {"Leaf": [("n", "int"), ("s", "str"), ("o", "nfloat"), ("k", "int")],
-           "Holder": [("extra", "int"), ("leaf.n", "int"), ("leaf.s", "str"), ("leaf.k", "int"), ("other.n", "optpath")],
+SCALARS = {"Leaf": [("n", "int"), ("s", "str"), ("o", "nfloat"), ("k", "int"), ("labels", "strlist")],
+           "Holder": [("extra", "int"), ("leaf.n", "int"), ("leaf.s", "str"), ("leaf.k", "int"), ("other.n", "optpath"), ("leaf.labels", "strlist")],
            "SubHolder": [("extra", "int"), ("bonus", "int"), ("leaf.n", "int"), ("leaf.s", "str")],
            "Tag": [("w", "int"), ("leaf.n", "int"), ("leaf.k", "int")],
            "Top": [("rank", "int"), ("holder.extra", "int"), ("holder.leaf.n", "int"), ("holder.leaf.s", "str"),
@@ -102,11 +104,16 @@ def gen_atom(rng, var, cls, world):
     r = rng.random()
     if typ == "nfloat":
         return ["cmp", rng.choice(["==", "==", "!="]), t, ["lit", rng.choice([None, 0.0, 1.0, 2.5])]] if r < 0.8 else ["in", t, ["lit", [0.0, 2.5]]]
+    if typ == "strlist":
+        # membership in a collection of builtins (one JSON column): an element, not a piece of the stored text
+        v = ["lit", rng.choice(["a", "ab", "b", "c", "d", "A", ""])]
+        return ["contains", t, v] if r < 0.5 else ["in", v, t]
     if typ == "str":
         if r < 0.5:
-            return ["cmp", rng.choice(["==", "!="]), t, ["lit", rng.choice(["ab", "abc", "b", ""])]]
+            return ["cmp", rng.choice(["==", "!="]), t, ["lit", rng.choice(["ab", "abc", "b", "", "Ab", "AB"])]]
         if r < 0.8:
-            return ["contains", t, ["lit", rng.choice(["a", "b", "ab", "c"])]]
+            # a substring test: '_' and '%' are characters like any other, and case matters
+            return ["contains", t, ["lit", rng.choice(["a", "b", "ab", "c", "_", "%", "A", "B", ""])]]
         # collections of 0..3 strings (a one-element collection is not a substring test), either operand order
         pool = rng.sample(["ab", "abc", "b", "xa", "", "a b", "zabc"], rng.choice([0, 1, 1, 1, 2, 2, 3]))
         return ["in", t, ["lit", pool]] if rng.random() < 0.6 else ["contains", ["lit", pool], t]
@@ -131,8 +138,9 @@ def gen_cond(rng, var, cls, world, depth):
 def gen(rng, tier, ctx):
     world = gen_world(rng)
     kind = rng.choices(["single", "single", "single", "join_rel", "join_scalar_diff", "join_scalar_same", "join_rel_same",
-                        "membership_rel", "var_eq_rel", "reject", "join_in_or", "join_twice", "value_var"],
-                       [30, 20, 10, 8, 6, 4, 3, 3, 3, 6, 3, 3, 3])[0]
+                        "membership_rel", "var_eq_rel", "reject", "join_in_or", "join_twice", "value_var", "set_of", "select_attr",
+                        "odd_collection"],
+                       [30, 20, 10, 8, 6, 4, 3, 3, 3, 6, 3, 3, 3, 2, 3, 3])[0]
     cls = rng.choice(["Leaf", "Holder", "SubHolder", "Tag", "Top", "Top"])
     q = {"kind": kind, "quant": "the" if rng.random() < 0.12 else "an", "root": cls, "vars": {"x": cls}}
     if kind == "single":
@@ -176,6 +184,22 @@ def gen(rng, tier, ctx):
     elif kind == "var_eq_rel":
         q["root"], q["vars"] = "Leaf", {"x": "Leaf", "y": "Holder"}
         q["cond"] = ["cmp", "==", ["path", "x", None], ["path", "y", "leaf"]]
+    elif kind == "set_of":
+        # the selection is a set_of: there is no entity to fetch
+        q["cond"] = gen_cond(rng, "x", cls, world, 1)
+        q["quant"] = "an"
+    elif kind == "select_attr":
+        # the selected expression is an attribute of the variable, the answers are instances of another class
+        q["root"], q["vars"], q["quant"] = "Holder", {"x": "Holder"}, "an"
+        q["cond"] = gen_cond(rng, "x", "Holder", world, 1)
+        q["select"] = "leaf"
+    elif kind == "odd_collection":
+        # literal collections that are not a flat list: a set, a tuple, a list holding a list
+        q["root"], q["vars"] = "Leaf", {"x": "Leaf"}
+        form = rng.choice(["set", "tuple", "nested"])
+        pool = rng.sample(range(5), rng.choice([1, 2, 3]))
+        q["cond"] = ["in", ["path", "x", "n"], ["lit", [pool] if form == "nested" else pool]]
+        q["collection"] = form
     else:
         q["cond"] = gen_cond(rng, "x", cls, world, 1)
         q["reject"] = rng.choice(["not", "exists", "call", "index"])
@@ -188,7 +212,15 @@ def witnesses():
                          {"sub": True, "leaf": 1, "other": 2, "many": [], "extra": 2, "bonus": 1},
                          {"sub": False, "leaf": 2, "other": 0, "many": [2], "extra": 3, "bonus": 0}],
              "tags": [{"leaf": 0, "w": 1}, {"leaf": 2, "w": 3}], "tops": [{"holder": 0, "rank": 1}, {"holder": 1, "rank": 2}], "other_all": True}
+    world = dict(world, leaves=[dict(l, labels=lb, s=st) for l, lb, st in zip(world["leaves"], (["ab"], ["a", "b"], []), ("A_b", "axb", "ab"))])
     return {
+        "substring-translated-to-like": {"world": world, "query": {
+            "kind": "single", "quant": "an", "root": "Leaf", "vars": {"x": "Leaf"}, "cond": ["contains", ["path", "x", "s"], ["lit", "_"]]}},
+        "json-collection-membership-as-substring": {"world": world, "query": {
+            "kind": "single", "quant": "an", "root": "Leaf", "vars": {"x": "Leaf"}, "cond": ["contains", ["path", "x", "labels"], ["lit", "a"]]}},
+        "selection-or-collection-not-expressible": {"world": world, "query": {
+            "kind": "select_attr", "quant": "an", "root": "Holder", "vars": {"x": "Holder"}, "select": "leaf",
+            "cond": ["cmp", "==", ["path", "x", "extra"], ["lit", 1]]}},
         "call-or-index-operand-escapes": {"world": world, "query": {
             "kind": "reject", "reject": "call", "quant": "an", "root": "Leaf", "vars": {"x": "Leaf"},
             "cond": ["cmp", ">", ["path", "x", "n"], ["lit", 0]]}},
@@ -207,7 +239,7 @@ def witnesses():
 # ------------------------------------------------------------------ execution
 def make_objects(world, sm):
     uid = iter(range(1, 10 ** 6))
-    leaves = [sm.Leaf(uid=next(uid), **l) for l in world["leaves"]]
+    leaves = [sm.Leaf(uid=next(uid), **{**l, "labels": list(l.get("labels", []))}) for l in world["leaves"]]
     holders = []
     for h in world["holders"]:
         kw = dict(uid=next(uid), leaf=leaves[h["leaf"]], other=leaves[h["other"]] if h["other"] is not None else None,
@@ -231,6 +263,8 @@ def build_query(q, objs, sm):
 
     def bt(t):
         if t[0] == "lit":
+            if q.get("collection") in ("set", "tuple") and isinstance(t[1], list):
+                return set(t[1]) if q["collection"] == "set" else tuple(t[1])
             return t[1]
         if t[0] == "obj":
             return objs[t[1]][t[2]]
@@ -276,7 +310,12 @@ def build_query(q, objs, sm):
         for part in path.split("."):
             e = getattr(e, part)
         cond = E.and_(cond, e[0:1] == "a")
-    desc = E.entity(x, cond)
+    if q["kind"] == "set_of":
+        desc = E.set_of([x], cond)
+    elif q.get("select"):
+        desc = E.entity(getattr(x, q["select"]), cond)
+    else:
+        desc = E.entity(x, cond)
     return (the if q["quant"] == "the" else an)(desc)
 
 
@@ -327,6 +366,8 @@ def run(case, ctx):
         mem_exc = None
         try:
             res = build_query(q, objs, sm).evaluate()
+            if q["kind"] == "set_of":
+                res = [list(row.values())[0] for row in res]
             mem = {res.uid} if q["quant"] == "the" else {o.uid for o in res}
         except (F.NoSolutionFound, F.MultipleSolutionFound) as e:
             mem, mem_exc = None, type(e).__name__
